@@ -6,6 +6,7 @@ from sim import install, ref_chunker
 from sim.core import substream
 
 PROP = 'C10'
+TECHNIQUE = 'deterministic simulation: seeded piece-delivery schedules and adjacent-memory contents over the freshly compiled chunker vs a pure-Python reference chunker'
 LEVEL = 'exploration'
 RULE = ('one case = a byte string (random / zeros / periodic / low entropy, <= 4 KiB), a 16-byte key, (min,max) with an aligned length in '
         '[min,max] (incl. min=max, max<8, unaligned max) and 4..8 seeded segmentations (single piece, one-byte pieces, empty pieces anywhere, '
